@@ -38,6 +38,8 @@ struct Task {
 }
 
 pub struct Exec {
+    /// tasks the harness keeps from running for now (e.g. a disk write whose completion is held back)
+    pub held: std::collections::BTreeSet<usize>,
     // drop order: the captured futures go before the runtime they were created under
     tasks: Vec<Task>,
     rt: tokio::runtime::Runtime,
@@ -51,7 +53,7 @@ impl Exec {
         } else {
             b.enable_time();
         }
-        Exec { rt: b.build().expect("runtime"), tasks: vec![] }
+        Exec { held: Default::default(), rt: b.build().expect("runtime"), tasks: vec![] }
     }
 
     pub fn runtime(&self) -> &tokio::runtime::Runtime {
@@ -140,7 +142,7 @@ impl Exec {
     }
     /// Not finished and ready to make progress (never polled, or woken since the last poll).
     pub fn runnable(&self) -> Vec<usize> {
-        self.tasks.iter().filter(|t| t.fut.is_some() && t.flag.0.load(Ordering::SeqCst)).map(|t| t.info.id).collect()
+        self.tasks.iter().filter(|t| t.fut.is_some() && t.flag.0.load(Ordering::SeqCst) && !self.held.contains(&t.info.id)).map(|t| t.info.id).collect()
     }
     /// Not finished.
     pub fn unfinished(&self) -> Vec<usize> {
